@@ -89,7 +89,7 @@ Proof.
   - set (alter := pg_sorted (flat_map pg_alter_items (skip_auto true subs))) in *.
     destruct alter as [|a0 al] eqn:EA; [destruct HA|].
     set (st := cmd h_alter_table (RTable o :: flat_map (alter_fwd true o) (a0 :: al))).
-    exists (map (ref_chain q) (filter (fun r => negb (in_literal r)) (s_refs st))),
+    exists (map (ref_chain q) (filter quoted_chain (s_refs st))),
            (map (ref_chain q) (filter in_literal (s_refs st))).
     split.
     + apply in_map_iff. exists st. split; [reflexivity|].
